@@ -75,14 +75,6 @@ mod verif_demo_xlsbwb_c06 {
     }
     #[test]
     #[should_panic]
-    fn verif_demo_xlsbwb_bundlesh_without_name_panics() {
-        // BrtBundleSh that ends after the relationship id: `wide_str(&buf[12 + rel_len..len], ..)` reads a u32 from an empty slice
-        let mut p = vec![0u8; 8];
-        p.extend(wstr("rId1"));
-        let _ = open(&wb(&[rec(0x009C, &p), rec(0x0090, &[])]), "worksheets/sheet1.bin", None, None);
-    }
-    #[test]
-    #[should_panic]
     fn verif_demo_xlsbwb_short_externsheet_panics() {
         // BrtExternSheet with an empty payload: `&buf[..4]`
         let _ = open(&wb(&[rec(0x0090, &[]), rec(0x016A, &[])]), "worksheets/sheet1.bin", None, None);
@@ -115,15 +107,6 @@ mod verif_demo_xlsbwb_c06 {
         // BrtBeginFmts with an empty payload: `read_usize(&buf)`
         let w = wb(&[bundle(0, 1, "rId1", "Sheet1"), rec(0x0090, &[])]);
         let _ = open(&w, "worksheets/sheet1.bin", Some(&rec(0x0267, &[])), None);
-    }
-    #[test]
-    #[should_panic]
-    fn verif_demo_xlsbwb_short_fmt_panics() {
-        // BrtFmt with a 1-byte payload after a 4-byte BrtBeginFmts: `wide_str(&buf[2..], ..)` reads a u32 from 2 bytes
-        let w = wb(&[bundle(0, 1, "rId1", "Sheet1"), rec(0x0090, &[])]);
-        let mut s = rec(0x0267, &1u32.to_le_bytes());
-        s.extend(rec(0x002C, &[0xA4]));
-        let _ = open(&w, "worksheets/sheet1.bin", Some(&s), None);
     }
     // C06: read_shared_strings
     #[test]
